@@ -305,9 +305,9 @@ def parse_solver_output(out, n, with_values):
     return toks
 
 
-def run(prop, tier, logdir):
+def run(prop, tier, logdir, only=None):
     import e2spec
-    qs = [q for q in e2spec.QUERIES if prop in q["props"] and (tier == "thorough" or q.get("tier", "quick") == "quick")]
+    qs = [q for q in e2spec.QUERIES if (prop in q["props"] if only is None else q["name"] in only) and (tier == "thorough" or q.get("tier", "quick") == "quick")]
     if not qs:
         return []
     funcs, enums = load(logdir)
@@ -316,7 +316,7 @@ def run(prop, tier, logdir):
         r = check_query(q, funcs, enums, tier, logdir)
         r["engine"] = "mir2smt/z3"
         if r["verdict"] == "candidate":
-            r = replay(q, r, prop, logdir)
+            r = replay(q, r, prop if only is None else q["props"][0], logdir)
         elif r["verdict"] == "not-translatable":
             # every query translates on the pinned tree; if a source change puts the function outside
             # the translator the honest answer is "inconclusive" (exit 2), never a silent pass
